@@ -129,4 +129,87 @@ example : (crcStream [⟨some .x32, 1, [1,2,3,4,5,6,7,8,9]⟩] Gen.CpuPaths.crcI
     (crcStream [⟨none, 0, [1,2,3,4]⟩, ⟨some .x64, 7, [5,6,7,8,9]⟩] Gen.CpuPaths.crcInitState).map crcFinal :=
   crc_partition_and_path_independent _ _ rfl
 
+/-! ## P2: the SSE2 message schedule of `SHA256_Transform_sse2` -/
+
+/-- every immediate of `sha256_sse2.c` that `Model.CpuPaths` §4 writes as a literal: the rotation
+    and shift counts of `s0_128` (7, 18, 3) and `s1_128_*` (`srli_epi64` by 17, 19; `srli_epi32` by
+    10), every `_MM_SHUFFLE`, the byte shifts by 8, `mm_bswap_epi32`, the argument wiring of `MSG4`
+    and of its four calls, the four block loads, the loop `for (i = 0; i < 64; i += 16)` with
+    `if (i == 48) break`, the sixteen `RNDr` lines per iteration -/
+theorem gen_sse2_constants :
+    Gen.CpuPaths.sse2S0 = [7, 18, 3] ∧
+    Gen.CpuPaths.sse2S1High = ([1, 1, 0, 0], [17, 19], 10, [2, 0, 2, 0], 8) ∧
+    Gen.CpuPaths.sse2S1Low = ([3, 3, 2, 2], [17, 19], 10, [2, 0, 2, 0], 8) ∧
+    Gen.CpuPaths.sse2SpanShuf = [0, 3, 2, 1] ∧
+    Gen.CpuPaths.sse2Bswap = (8, 8, [2, 3, 0, 1], [2, 3, 0, 1]) ∧
+    Gen.CpuPaths.sse2Msg4Args = [2, 3, 0, 1, 0, 3] ∧
+    Gen.CpuPaths.sse2Loads = [(0, 0, 0), (1, 16, 4), (2, 32, 8), (3, 48, 12)] ∧
+    Gen.CpuPaths.sse2Msg4Calls =
+      [(0, [0, 1, 2, 3], 16), (1, [1, 2, 3, 0], 20), (2, [2, 3, 0, 1], 24), (3, [3, 0, 1, 2], 28)] ∧
+    Gen.CpuPaths.sse2Loop = [0, 64, 16, 48] ∧
+    Gen.CpuPaths.sse2RoundsPerIter = [0, 1, 2, 3, 4, 5, 6, 7, 8, 9, 10, 11, 12, 13, 14, 15] := by
+  decide
+
+/-- the round code of `sha256_sse2.c` (`Ch Maj ROTR S0 S1 RND RNDr`, the sixteen `RNDr` lines, the
+    initial `memcpy(S, state, 32)` and the final `state[i] += S[i]`) is textually the portable
+    file's, and its `Krnd` table is FIPS 180-4 §4.2.2 -/
+theorem gen_sse2_rounds_are_portable :
+    Gen.CpuPaths.sse2RoundCodeSameAsPortable = true ∧ Gen.CpuPaths.sse2K = Sha256.K := by
+  decide
+
+/-- the 64 immediates of the sixteen `RNDMSG` lines of `sha256_shani.c` are `K₀ … K₆₃` -/
+theorem gen_shani_constants : Gen.CpuPaths.shaniK = Sha256.K := by decide
+
+/-- `PSRLQ` by 17 (19) on a 64-bit lane that holds the same 32-bit word twice leaves `ROTR¹⁷`
+    (`ROTR¹⁹`) of that word in the low half — the trick behind `s1_128_low/high` -/
+theorem sse2_srli_epi64_is_rotr (x : UInt32) :
+    (srli64Lane x x 17).1 = Sha256.rotr x 17 ∧ (srli64Lane x x 19).1 = Sha256.rotr x 19 :=
+  ⟨rot17 x, rot19 x⟩
+
+example : (srli64Lane 0x80000001 0x80000001 17).1 = 0x0000c000 := by decide
+
+/-- **`MSG4` computes the next four schedule words.**  With the sixteen previous words in
+    `X0 … X3` (`X0 = W[j-16..j-13]`, …, `X3 = W[j-4..j-1]`), the four lanes of `MSG4(X0,X1,X2,X3)`
+    are the next four values of the FIPS 180-4 recurrence (`Spec.Sha256.extend` keeps its list
+    newest first). -/
+theorem sse2_msg4_eq_schedule (X0 X1 X2 X3 : V4) (older : List UInt32) :
+    Sha256.extend 4 (X3.lanes.reverse ++ X2.lanes.reverse ++ X1.lanes.reverse ++ X0.lanes.reverse ++ older) =
+      (msg4 X0 X1 X2 X3).lanes.reverse ++
+        (X3.lanes.reverse ++ X2.lanes.reverse ++ X1.lanes.reverse ++ X0.lanes.reverse ++ older) :=
+  extend4 X0 X1 X2 X3 older
+
+example : msg4 ⟨1, 2, 3, 4⟩ ⟨5, 6, 7, 8⟩ ⟨9, 10, 11, 12⟩ ⟨13, 14, 15, 16⟩ =
+    ⟨Sha256.smallSigma1 15 + 10 + Sha256.smallSigma0 2 + 1, 101367821, 3020350282, 1107812741⟩ := by decide
+
+/-- `mm_bswap_epi32(_mm_loadu_si128(p))` = the four big-endian words at `p` -/
+theorem sse2_load_is_be32 (b0 b1 b2 b3 b4 b5 b6 b7 b8 b9 b10 b11 b12 b13 b14 b15 : UInt8) :
+    loadBswap [b0, b1, b2, b3, b4, b5, b6, b7, b8, b9, b10, b11, b12, b13, b14, b15] =
+      some ⟨be32 b0 b1 b2 b3, be32 b4 b5 b6 b7, be32 b8 b9 b10 b11, be32 b12 b13 b14 b15⟩ :=
+  loadBswap_eq ..
+
+/-- **The array `W[0..63]` that `SHA256_Transform_sse2` computes is the FIPS 180-4 message
+    schedule of the block** (for every 64-byte block). -/
+theorem sse2_schedule_eq_spec (block : Bytes) (h : block.length = 64) :
+    sse2W block = some (Sha256.schedule block) := sse2W_eq block h
+
+/-- not a block: the model says so instead of inventing a value -/
+theorem sse2_schedule_needs_a_block (block : Bytes) (h : block.length ≠ 64) : sse2W block = none := by
+  simp [sse2W, loadBlock, h]
+
+/-- **`SHA256_Transform_sse2` is the FIPS 180-4 compression function**, given that its rounds are
+    the portable file's (`gen_sse2_rounds_are_portable`; that the portable macro structure is the
+    textbook round is C01's `sha256_transform_eq_fips`). -/
+theorem sse2_transform_eq_compress (H : Sha256.Regs) (block : Bytes) (h : block.length = 64) :
+    transformSse2 H block = some (Sha256.compress H block) := transformSse2_eq H block h
+
+/-- … hence any sequence of SSE2 transforms equals the specification's chaining, so SHA-256 run
+    through the SSE2 path is `Spec.Sha256.hash` by C01's generic Merkle–Damgård theorem (whose
+    compression function is a parameter). -/
+theorem sse2_absorb_eq_spec (H : Sha256.Regs) (blocks : List Bytes) (h : ∀ b ∈ blocks, b.length = 64) :
+    absorbSse2 H blocks = some (blocks.foldl Sha256.compress H) := absorbSse2_eq H blocks h
+
+example : absorbSse2 Sha256.H0 [0x61 :: 0x62 :: 0x63 :: 0x80 :: (List.replicate 59 0 ++ [0x18])] =
+    some ⟨0xba7816bf, 0x8f01cfea, 0x414140de, 0x5dae2223, 0xb00361a3, 0x96177a9c, 0xb410ff61, 0xf20015ad⟩ := by
+  decide +kernel
+
 end Percival.C03
